@@ -12,6 +12,7 @@ mod checks;
 mod ctx;
 mod driver;
 mod icd;
+mod logsink;
 mod rng;
 mod rtworld;
 mod s3sim;
@@ -32,6 +33,7 @@ fn usage() -> i32 {
 fn main() {
     let args: Vec<String> = std::env::args().collect();
     driver::install_panic_hook();
+    logsink::install();
     let code = match args.get(1).map(|s| s.as_str()) {
         Some("list") => {
             for c in driver::checks() {
